@@ -371,21 +371,28 @@ converter.register_unstructure_hook({class_name}, _unstructure_{class_name.lower
                 if enum_schema and enum_schema.enum:
                     # This is an enum field - convert default value to enum member access
                     # e.g., "default" -> JobPriorityEnum.DEFAULT
-                    # Derive the member name exactly as EnumGenerator does for the enum class itself
-                    # (e.g., "default" -> "DEFAULT", "1st" -> "MEMBER_1ST", 1 -> "VALUE_1")
+                    # Pick the member by value from the members EnumGenerator emits for the enum class itself
+                    # (member names are de-duplicated there, so the default text alone does not determine the name)
                     from .enum_generator import EnumGenerator
 
-                    enum_generator = EnumGenerator(self.renderer)
+                    default_value: str | int
                     if enum_schema.type == "integer":
                         try:
-                            enum_member_name = enum_generator._generate_member_name_for_integer_enum(
-                                ps.default, int(ps.default)
-                            )
+                            default_value = int(ps.default)
                         except (TypeError, ValueError):
                             return "None"
                     else:
-                        enum_member_name = enum_generator._generate_member_name_for_string_enum(str(ps.default))
-                    return f"{ps.name}.{enum_member_name}"
+                        default_value = str(ps.default)
+                    for enum_member_name, enum_member_value in EnumGenerator(self.renderer)._generate_members(
+                        enum_schema
+                    ):
+                        if enum_member_value == default_value:
+                            return f"{ps.name}.{enum_member_name}"
+                    logger.warning(
+                        f"DataclassGenerator: Default value '{ps.default}' for field of type '{ps.name}'"
+                        f" is not a value of that enum. Falling back to None."
+                    )
+                    return "None"
 
             if isinstance(ps.default, str):
                 escaped_inner_content = json.dumps(ps.default, ensure_ascii=False)[1:-1]
